@@ -63,9 +63,23 @@ impl Drop for RemoveDirOnDrop {
 }
 
 fn rebase(m: &Message, from: &str, to: &str) -> Message {
-    let text = serde_json::to_string(m).unwrap_or_default();
-    let out = text.replace(&format!("file://{}/", from), &format!("file://{}/", to));
-    serde_json::from_str(&out).unwrap_or_else(|_| m.clone())
+    // rewrite inside the JSON values only: a round trip of the whole message would turn `result: null`
+    // (Some(Null)) into an absent result
+    let a = format!("file://{}/", from);
+    let b = format!("file://{}/", to);
+    let fix = |v: &Value| -> Value {
+        let t = v.to_string();
+        if t.contains(&a) {
+            serde_json::from_str(&t.replace(&a, &b)).unwrap_or_else(|_| v.clone())
+        } else {
+            v.clone()
+        }
+    };
+    match m {
+        Message::Request(r) => Message::Request(Request { id: r.id.clone(), method: r.method.clone(), params: fix(&r.params) }),
+        Message::Notification(n) => Message::Notification(Notification { method: n.method.clone(), params: fix(&n.params) }),
+        Message::Response(r) => Message::Response(Response { id: r.id.clone(), result: r.result.as_ref().map(fix), error: r.error.clone() }),
+    }
 }
 
 /// the URI an editor would send for the note: percent-encoded by the url crate
@@ -146,6 +160,8 @@ pub struct Trace {
     pub events: Vec<(u64, String)>,
     /// the editor's texts (uri -> text) when the program was exhausted
     pub final_texts: BTreeMap<String, String>,
+    /// the run contained real parallelism (Overlap choices): its event order is not reproducible
+    pub racy: bool,
 }
 
 fn request_id_of(step_idx: usize) -> i64 {
@@ -260,6 +276,7 @@ pub fn execute(program: &Program, mode: &mut Mode, budget_mult: usize) -> Result
         tr.sched_sig = rng::mix2(tr.sched_sig, match &choice {
             Choice::Send => 1,
             Choice::Run { t } => 2 + *t,
+            Choice::Overlap { t } => 1000 + *t,
         });
         match choice {
             Choice::Send => {
@@ -363,6 +380,11 @@ pub fn execute(program: &Program, mode: &mut Mode, budget_mult: usize) -> Result
                     });
                     tr.sent.push(Sent { msg: m, step: idx, seq, p, fault });
                 }
+            }
+            Choice::Overlap { t } => {
+                tr.racy = true;
+                *tr.probes.entry("worker-overlapped-with-loop".into()).or_default() += 1;
+                sys.run_overlapped(t);
             }
             Choice::Run { t } => {
                 // probes: what is alive when the loop picks up a message
